@@ -293,7 +293,8 @@ def decl_source(d, doc=False, derive_debug_enums=True, vis=None):
         t = decl_field_type(d, f)
         if f["array"]:
             t = "[%s; %d]" % (t, f["array"][0])
-        out.append("    %s: %s," % (f["name"], t))
+        # the field's own visibility is not part of the documented interface (accessors are always `pub`): any spelling
+        out.append("    %s%s: %s," % (f.get("fvis", ""), f["name"], t))
     out.append("}")
     if d.get("hostile") and d["fields"]:
         out.extend(hostile_items(d))
